@@ -77,7 +77,7 @@ func normTrace(tr []TraceLine, dir string) []string {
 		var parts []string
 		for _, k := range []string{"path", "old", "new", "len", "off", "flags"} {
 			if v, ok := t.KV[k]; ok {
-				parts = append(parts, k+"="+strings.TrimPrefix(v, dir))
+				parts = append(parts, k+"="+normTmp(strings.TrimPrefix(v, dir)))
 			}
 		}
 		out = append(out, t.Name+" "+strings.Join(parts, " "))
@@ -481,6 +481,11 @@ func c03(args []string) int {
 		fmt.Fprintln(os.Stderr, "HARNESS ERROR (no verdict):", harnessErr)
 		return 2
 	}
+	if evals == 0 {
+		// e.g. every scenario failed the determinism gate: nothing was decided, which is not a pass
+		fmt.Fprintln(os.Stderr, "HARNESS ERROR (no verdict): no kill point was explored in any scenario")
+		return 2
+	}
 	if len(samples) == 0 {
 		samples = append(samples, "(none)")
 	}
@@ -529,6 +534,12 @@ func mixString(m map[string]int) string {
 
 var reScnDir = regexp.MustCompile(`/lsmc-[0-9]+/b[0-9]+/[0-9]+`)
 
+// The file replica client stages uploads in "<name>.ltx.<pid>.<seq>.tmp": the pid differs between worker
+// processes, the per-process sequence number does not.
+var reTmpPid = regexp.MustCompile(`(\.ltx)\.[0-9]+\.([0-9]+\.tmp)`)
+
+func normTmp(p string) string { return reTmpPid.ReplaceAllString(p, "$1.PID.$2") }
+
 // normTraceAny normalises counted calls: syscall name + path with the scenario directory prefix removed.
 func normTraceAny(tr []TraceLine) []string {
 	var out []string
@@ -539,7 +550,7 @@ func normTraceAny(tr []TraceLine) []string {
 		var parts []string
 		for _, k := range []string{"path", "old", "new", "len", "off"} {
 			if v, ok := t.KV[k]; ok {
-				parts = append(parts, k+"="+reScnDir.ReplaceAllString(v, "$DIR"))
+				parts = append(parts, k+"="+normTmp(reScnDir.ReplaceAllString(v, "$DIR")))
 			}
 		}
 		out = append(out, t.Name+" "+strings.Join(parts, " "))
